@@ -58,6 +58,7 @@ type Chan struct {
 	cap    int
 	closed bool
 	id     int
+	sendVC vclock
 }
 
 // ---------- zero values ----------
